@@ -114,3 +114,27 @@ Proof.
   - destruct ms as [|m ms']; auto. exists 0. split; [rewrite frame_length; lia|reflexivity].
   - eauto.
 Qed.
+
+(** ... with the exact account of what is left in the buffer: the bytes fed are the frames of the
+    messages delivered followed by [rest], and [rest] is empty or a strict prefix of the next frame.
+    At the end of the stream the decoder ([decode_eof]) reports an error exactly when bytes are left,
+    that is, exactly when the stream was cut inside a frame (inside its length header included). *)
+Theorem frame_stream_truncated_rest max ms chunks tl :
+  Forall (sendable max) ms -> concat chunks ++ tl = stream_of ms ->
+  exists ms1 ms2 rest, ms = ms1 ++ ms2 /\ feed_chunks max [] chunks = (ms1, rest, false) /\
+    concat chunks = stream_of ms1 ++ rest /\
+    (match ms2 with
+     | [] => rest = []
+     | m :: _ => exists k, k < length (frame (enc_cmsg m)) /\ rest = firstn k (frame (enc_cmsg m))
+     end) /\
+    (eof_error rest = true <-> concat chunks <> stream_of ms1).
+Proof.
+  intros H E.
+  destruct (frame_stream_gen max chunks [] ms H) as (ms1 & ms2 & rest & -> & FC & EQ & T).
+  - exists tl. exact E.
+  - destruct ms as [|m ms']; auto. exists 0. split; [rewrite frame_length; lia|reflexivity].
+  - exists ms1, ms2, rest. cbn [app] in EQ. repeat split; auto.
+    + intros EE CE. rewrite EQ in CE. destruct rest; [discriminate|].
+      rewrite <- (app_nil_r (stream_of ms1)) in CE at 2. apply app_inv_head in CE. discriminate.
+    + intros NE. destruct rest; [|reflexivity]. exfalso. apply NE. now rewrite EQ, app_nil_r.
+Qed.
